@@ -21,7 +21,7 @@ func (c14) Size(tier string) Size {
 	return Size{Batches: 4, Cases: 4000}
 }
 func (c14) Rule() string {
-	return "case = history of 1-60 calls of AddType/RemoveType/AddAttr/RemoveAttr/AddRel/RemoveRel/AddTwoWayRel over 4 type names and 4 field names plus empty and unknown names, valid and invalid attribute kinds (0,15,99,-1 with and without nullable), removal of first/middle/last type, two-way relationships in both directions and within one type; after EVERY call a snapshot of Types + HasType/GetType for every pool name is compared with a reference model (ordered list of name -> attrs, rels) stepped with the same call. Non-trivial = history with >= 1 successful and >= 1 failing call and >= 2 types alive at some point; distinct = hash of the call list."
+	return "case = history of 1-60 calls of AddType/RemoveType/AddAttr/RemoveAttr/AddRel/RemoveRel/AddTwoWayRel over 4 type names and 4 field names plus empty and unknown names, valid and invalid attribute kinds (0,15,99,-1 with and without nullable), removal of first/middle/last type, two-way relationships in both directions and within one type; after EVERY call a snapshot of Types + HasType/GetType for every pool name is compared with a reference model (ordered list of name -> attrs, rels) stepped with the same call. Names that differ by surrounding white space or letter case ('a ', ' a', 'A') are different names. Non-trivial = history with >= 1 successful and >= 1 failing call and >= 2 types alive at some point; distinct = hash of the call list."
 }
 func (c14) Assumptions() []string {
 	return []string{"nil and empty field maps are the same state (indistinguishable through the editing API's purpose); types handed to AddType are empty or carry well-formed fields",
@@ -123,12 +123,12 @@ func snapshotSchema(sc *jsonapi.Schema) mSchema {
 }
 
 type c14op struct {
-	Op   string       `json:"op"`
-	Type string       `json:"type,omitempty"`
-	Name string       `json:"name,omitempty"`
+	Op   string        `json:"op"`
+	Type string        `json:"type,omitempty"`
+	Name string        `json:"name,omitempty"`
 	Attr *jsonapi.Attr `json:"attr,omitempty"`
 	Rel  *jsonapi.Rel  `json:"rel,omitempty"`
-	NewT *mType       `json:"new_type,omitempty"`
+	NewT *mType        `json:"new_type,omitempty"`
 }
 
 func (o c14op) String() string { return jsonStr(o) }
@@ -145,6 +145,9 @@ func (m c14) genOp(r *RNG) c14op {
 			return ""
 		case 1:
 			return "unknown"
+		case 2:
+			// names that differ only by surrounding white space or letter case are different names
+			return r.Pick([]string{"a ", " a", "A", "a ", "t "})
 		}
 		return r.Pick(c14Types)
 	}
@@ -154,6 +157,8 @@ func (m c14) genOp(r *RNG) c14op {
 			return ""
 		case 1:
 			return "zz"
+		case 2:
+			return r.Pick([]string{"a ", " a", "A", "F"})
 		}
 		return r.Pick(c14Fields)
 	}
@@ -390,7 +395,7 @@ func (m c14) historyMode(c *Ctx, ops []c14op, blind bool) {
 			continue
 		}
 		if pi := Guard(func() {
-			for _, n := range append([]string{"", "unknown"}, c14Types...) {
+			for _, n := range append([]string{"", "unknown", "a ", " a", "A", "t "}, c14Types...) {
 				i := snap.find(n)
 				if sc.HasType(n) != (i >= 0) {
 					lookErr = fmt.Sprintf("HasType(%q)=%v but the list says %v", n, sc.HasType(n), i >= 0)
